@@ -79,7 +79,7 @@ def direct_cases(draw):
     n = draw(st.one_of(st.integers(0, 40), st.sampled_from([0, 1, 2, 255, 256, 488, 489, 3988, 4000]), st.integers(0, 4000)))
     seed = draw(st.binary(min_size=1, max_size=8))
     return {"kind": draw(st.sampled_from(["register", "unregister", "listidentity", "rr", "rr", "unit", "unit"])),
-            "session": draw(u32), "cid": draw(u32), "ctx": draw(st.binary(min_size=8, max_size=8)),
+            "session": draw(u32), "cid": draw(st.one_of(u32, st.just(0))), "ctx": draw(st.binary(min_size=8, max_size=8)),
             "payload": (seed * (n // len(seed) + 1))[:n], "service": draw(st.integers(1, 0x7F)),
             "cls": draw(st.one_of(st.integers(1, 255), st.integers(256, 65535))), "inst": draw(st.one_of(st.integers(0, 255), st.integers(256, 0xFFFFFFFF))),
             "seq": draw(st.integers(0, 65535))}
